@@ -57,21 +57,44 @@ FORBIDDEN = [r'\bCell\s*<', r'\bRefCell\b', r'\bMutex\b', r'\bRwLock\b', r'\bAto
 
 @extra
 def frame_scan(tier):
-    """C13/C16: the frame argument (inputs and compiled expressions are reached only through `&`) rests on the
-    absence of interior mutability and unsafe code.  A hit is UNDECIDED (exit 2), never a violation: the scan
-    cannot tell a correct use from a wrong one."""
+    """C13/C16: the frame obligation.  Every per-call contract in the units says "the result is related to the
+    arguments"; that is a statement about the function only if the compile/search path holds no shared mutable
+    state (inputs and compiled expressions are then reached only through `&`, T3).  The obligation is syntactic: no
+    interior mutability, no mutable or interior-mutable statics, no thread-locals in jmespath/src.  It is discharged
+    on the pinned tree; a hit is a FAILED obligation and is reported as a violation without a failing input (the
+    scan cannot construct one, and cannot tell a result-neutral use, e.g. a statistics counter, from a harmful one:
+    stated limit).  `unsafe` alone is UNDECIDED (exit 2): it says nothing about state."""
     hits = []
+    unsafe_hits = []
     files = sorted(f for f in os.listdir(_src()) if f.endswith('.rs'))
     for f in files:
         src = open(_src(f)).read()
         mask = R.mask_source(src)
-        # drop #[cfg(test)] modules
         for pat in FORBIDDEN:
             for m in re.finditer(pat, mask):
                 line = src.count('\n', 0, m.start()) + 1
-                hits.append('%s:%d: %s' % (f, line, m.group(0)))
+                (unsafe_hits if 'unsafe' in pat else hits).append((f, line, m.group(0).strip()))
     if hits:
-        return {'status': 'undecided', 'reason': 'interior mutability / unsafe found, frame argument no longer applies: ' + '; '.join(hits[:5]),
+        fails = []
+        seen = set()
+        for f, line, tok in hits:
+            key = (f, re.sub(r'\W+', '', tok))
+            if key in seen:
+                continue
+            seen.add(key)
+            text = open(_src(f)).read().split('\n')[line - 1].strip()
+            fails.append({'obligation': 'extra/frame_scan#no-shared-mutable-state:%s:%s' % (f, key[1]), 'kind': 'frame',
+                          'label': 'no-shared-mutable-state', 'properties': ['C13', 'C16'],
+                          'function': 'jmespath/src/%s' % f,
+                          'message': 'shared mutable state on the compile/search path: `%s` at %s:%d' % (tok, f, line),
+                          'clause': 'frame: jmespath/src holds no interior mutability, mutable static or thread-local',
+                          'site': {'repo': 'jmespath/src/%s:%d' % (f, line), 'text': text[:200]},
+                          'rendered': 'frame_scan: %s:%d: %s' % (f, line, text[:300]),
+                          'backend': 'extra', 'witness': None, 'witness_replayed': False})
+        return {'status': 'fail', 'failures': fails, 'obligations': len(files), 'discharged': max(0, len(files) - len({h[0] for h in hits})),
+                'cmd': 'tools/extras.py frame_scan (regex scan of jmespath/src/*.rs with comments/strings blanked)'}
+    if unsafe_hits:
+        return {'status': 'undecided', 'reason': '`unsafe` found, the frame argument (T3) no longer applies as stated: ' + '; '.join('%s:%d' % h[:2] for h in unsafe_hits[:5]),
                 'failures': [], 'obligations': 0, 'discharged': 0}
     return {'status': 'ok', 'obligations': len(files), 'discharged': len(files), 'scanned': files,
             'cmd': 'tools/extras.py frame_scan (regex scan of jmespath/src/*.rs with comments/strings blanked)',
@@ -108,20 +131,25 @@ def builtin_table(tier):
         if not m:
             return {'status': 'undecided', 'reason': 'statement not of the form self.register_function("name", Box::new(T::new())): ' + s[:80]}
         seen[m.group(1)] = m.group(2)   # a later statement for the same name wins (registry semantics)
+    known_structs = {_camel(n): n for n in SPEC_BUILTINS}
+    unknown = []
     for n in SPEC_BUILTINS:
         if n not in seen:
             fails.append(('missing', n, 'builtin `%s` is not registered' % n))
         elif seen[n] != _camel(n):
-            fails.append(('wrong-impl', n, 'name `%s` is bound to %s, expected %s' % (n, seen[n], _camel(n))))
-    for n in seen:
-        if n not in SPEC_BUILTINS:
-            fails.append(('extra', n, 'name `%s` is registered but is not a specified builtin' % n))
+            if seen[n] in known_structs:       # bound to the struct that implements a different specified function
+                fails.append(('wrong-impl', n, 'name `%s` is bound to %s (the implementation of `%s`), expected %s' % (n, seen[n], known_structs[seen[n]], _camel(n))))
+            else:                              # a struct this table does not know (renamed?): cannot be decided here
+                unknown.append('%s -> %s' % (n, seen[n]))
+    if unknown and not fails:
+        return {'status': 'undecided', 'reason': 'builtin names bound to structs outside the recorded naming scheme (renamed?): ' + ', '.join(unknown[:5])}
+    extra_names = sorted(n for n in seen if n not in SPEC_BUILTINS)     # additional functions are not constrained by the properties
     failures = [{'obligation': 'extra/builtin_table#table:%s-%s' % (k, n), 'kind': 'table', 'label': k, 'properties': ['C15', 'C02', 'C06'],
                  'function': 'runtime.rs::register_builtin_functions', 'message': msg, 'clause': 'name -> implementation table',
                  'site': {'repo': 'jmespath/src/runtime.rs:%d-%d' % (item.first_line, item.last_line)}, 'rendered': msg,
                  'backend': 'extra', 'witness': {'call': '%s(...)' % n}, 'witness_replayed': False} for k, n, msg in fails]
     return {'status': 'fail' if failures else 'ok', 'failures': failures, 'obligations': len(SPEC_BUILTINS), 'discharged': len(SPEC_BUILTINS) - len(set(f[1] for f in fails if f[1] in SPEC_BUILTINS)),
-            'cmd': 'tools/extras.py builtin_table (exhaustive over the 26-row table)', 'table': seen}
+            'cmd': 'tools/extras.py builtin_table (exhaustive over the 26-row table)', 'table': seen, 'additional_names': extra_names}
 
 
 def _cargo(args, cwd, timeout=900, toolchain=None):
@@ -257,6 +285,50 @@ def expref_position(tier):
                 'note': 'not a proof obligation: a demonstration that the known expression-reference finding still reproduces'}
     finally:
         shutil.rmtree(scratch, ignore_errors=True)
+
+
+def _derive_table():
+    """type name -> sorted list of derived traits, for every struct/enum in jmespath/src"""
+    found = {}
+    for f in sorted(os.listdir(_src())):
+        if not f.endswith('.rs'):
+            continue
+        src = open(_src(f)).read()
+        mask = R.mask_source(src)
+        for m in re.finditer(r'\b(?:pub(?:\([^)]*\))?\s+)?(struct|enum)\s+(\w+)', mask):
+            # attributes directly above the item
+            head = mask[:m.start()]
+            k = len(head.rstrip())
+            derives = []
+            while True:
+                mm = re.search(r'#\[([^\]]*)\]\s*$', head[:k])
+                if not mm:
+                    break
+                d = re.match(r'\s*derive\s*\(([^)]*)\)', mm.group(1))
+                if d:
+                    derives += [x.strip() for x in d.group(1).split(',') if x.strip()]
+                k = len(head[:mm.start()].rstrip())
+            found['%s::%s' % (f, m.group(2))] = sorted(set(derives))
+    return found
+
+
+@extra
+def derive_inventory(tier):
+    """T3 ("derives are structural") is an assumption of the units: Clone / PartialEq / Debug of Expression, Ast,
+    Variable's helper types etc. are taken to be the compiler-generated structural impls.  If a type loses a derive
+    (a hand-written impl may have replaced it) or gains one, the assumption no longer describes the code:
+    UNDECIDED (exit 2), never a violation."""
+    rec = json.load(open(os.path.join(VERIF, 'config', 'derives.json')))
+    found = _derive_table()
+    diffs = []
+    for k in sorted(rec):           # only the types the units declare with assumed (derived) impls
+        if rec.get(k) != found.get(k):
+            diffs.append('%s: recorded %s, found %s' % (k, rec.get(k), found.get(k)))
+    if diffs:
+        return {'status': 'undecided', 'reason': 'derive inventory differs from config/derives.json (T3 no longer describes the code): ' + '; '.join(diffs)[:600]}
+    return {'status': 'ok', 'failures': [], 'obligations': len(found), 'discharged': len(found),
+            'cmd': 'scan of #[derive(..)] on every struct/enum in jmespath/src against config/derives.json',
+            'functions': ['derive table: %d types' % len(found)]}
 
 
 CFG_EXPECTED = None
